@@ -84,7 +84,6 @@ fn market_assumptions() -> Vec<String> {
         "actors run natively on SimVM; the market is addressed as the (real) miner actors by implicit messages for activation/termination, which those methods allow because they validate only the caller's type".into(),
         "client signatures are faked but bound to the signer's key address".into(),
         "sparse time regime: epochs jump; market.CronTick is invoked as the cron actor at generator-chosen epochs".into(),
-        "re-publication of a proposal identical to a live, already activated deal is a grey zone of the statement: the model mirrors the code there and abandons the history on disagreement".into(),
         "an implementation stricter than the model (rejecting what the protocol allows) is labelled, not reported".into(),
     ]
 }
